@@ -3,20 +3,22 @@ VARIANT = "san"
 RULE = "see stats"
 TIMEOUT = {"quick": 1500, "thorough": 6 * 3600, "search": 3600}
 PARTIAL = [
-    "legality of the returned placement (clause 1) is proved only for the Abacus pass relative to the row segments it is "
-    "given (legalize_legal_partial: listed cells inside their segment, pairwise ordered and non-overlapping, for every input "
-    "on which AbacusLegalizer returns); NOT proved: that every placed cell is listed in exactly one segment with that "
-    "segment's y, the Tetris pass for multi-row cells, disjointness of the segments handed to Abacus from placed macros "
-    "and obstructions, and the import/export index plumbing (legalize_legal_full_statement). Supported instead by the "
-    "whole-pipeline correspondence stream and the independent legality oracle on every normal return of the real code.",
-    "never fails when success is trivial (clause 3) is not proved (legalize_trivial_success_full_statement); only the local "
-    "step 'evaluatePlacement accepts every segment with enough remaining space for an unrestricted cell' is "
-    "(legalize_trivial_success_partial). Supported by the harness: directed trivial-success instances at and just under the "
-    "bound must not throw (measured count class_trivial_success).",
+    "never fails when success is trivial (clause 3) IS proved for all inputs (legalize_trivial_success, for every rounding of the "
+    "ordering key: domain C01.Dom, all movable cells one row high with polarity ANY and an orientation other than INVALID, W any "
+    "bound on the placed widths, total width <= total computeRows width - #segments*W => legalize returns; with legalize_legal the "
+    "result is legal: legalize_trivial_success_legal). Read of the statement made explicit: 'row-high cells without row "
+    "restrictions' = every movable cell of the circuit is such a cell (a design that also has macros or polarised cells is not "
+    "covered by the clause); the harness' directed trivial-success instances at and just under the bound (class_trivial_success) "
+    "tie it to the real code.",
     "the ordering key is binary32 in the C++; the model computes it with an exact model of IEEE round-to-nearest-even over "
     "Rat (f32), tied by the `order` sub-stream; the theorems of C01 hold for every rounding function.",
 ]
 ASSUMPTIONS = [
+    "clause 1 (legalize_legal) is proved for all inputs of the domain C01.Dom, the property's quantifier made explicit and "
+    "decidable: uniform positive row height, movable cells of positive placed width and placed height a positive multiple of the "
+    "row height, polarised cells unturned, rows pairwise disjoint with non-empty x-range and unturned (N/S/FN/FS or no) "
+    "orientation; a turned (E/W/FE/FW) row is outside the domain (a polarised cell would be turned there and its placed size "
+    "would swap); fixed cells are unrestricted",
     "C++ int/long long arithmetic modelled as unbounded Int (coordinates |v| < 2^20 in the streams; overflow is C07's obligation)",
     "boost::polygon row/obstacle subtraction behaves as the 1-D interval model Freespace (tied by C15)",
     "binary32 arithmetic of computeCellOrder = f32 over Rat: SSE float evaluation, no FMA contraction, finite non-NaN parameters",
@@ -27,8 +29,13 @@ ASSUMPTIONS = [
 ]
 LEVEL_TEXT = ("Lean 4 theorems over an executable model of the whole legalization pipeline (fromIspdCircuit, computeCellOrder with "
               "an exact binary32 key, Tetris, remainingRows, Abacus with RowLegalizer, checkAllPlaced, exportPlacement): "
-              "error-or-all-placed and the frame of exportPlacement for all inputs; legality of the Abacus pass relative to its "
-              "segments for all inputs (partial, see partial_clauses); pre-fix witnesses by kernel evaluation. The model is tied to "
+              "legality of every normally returned placement for ALL circuits of the domain, all parameters and every rounding of "
+              "the ordering key (legalize_legal: every row-high strip of every movable cell inside one free segment of computeRows of "
+              "the returned circuit, bottom edge on the segment's minY, no two movable cells intersect; proof by the Tetris "
+              "rowFreePos invariant, soundness of remainingRows, the executed AbacusLegalizer::check, last-writer bookkeeping of "
+              "importLegalization/writeRows/exportPlacement, and computeRows being unchanged by the export); error-or-all-placed, the "
+              "frame of exportPlacement and failed_legalize_unchanged for all inputs; trivial success only partially (see "
+              "partial_clauses); pre-fix witnesses by kernel evaluation. The model is tied to "
               "Circuit::legalize by a differential stream over generated circuits (all option mixes, directed full/overfull/"
               "trivial/macro-cover instances, parameters over the whole accepted range) and every normal return of the real "
               "code is checked by an independent legality oracle")
